@@ -453,12 +453,18 @@ func runC19History(r *mon.Run, stream uint64) {
 }
 
 func runC19(r *mon.Run, replay string) {
-	r.Rule("generated histories fed to a pruned node P and an unpruned twin U; PruneBlocks(h) for h in {0,1,mid,PRNG,tip,tip+1,tip+2,tip+5}, repeated; after every prune exactly the best-chain bodies below h must be absent (all other stored bodies present), index/states equal to the pure replay, MinReorgIndex = lowest block with all bodies above present, History/Headers equal to U's; forks with fork point above/at/below MinReorgIndex: at/above must be adopted with pure states, below may be refused with an error and an unchanged view; UpdatesSince/BlocksForHistory needing pruned bodies must error without panic; pruned store reopened from its durable image; distinct = (regime, stream, pruned count, split)")
+	r.Rule("generated histories fed to a pruned node P and an unpruned twin U; PruneBlocks(h) for h in {0,1,mid,PRNG,tip,tip+1,tip+2,tip+5}, repeated; after every prune exactly the best-chain bodies below h must be absent (all other stored bodies present), index/states equal to the pure replay, MinReorgIndex = lowest block with all bodies above present, History/Headers equal to U's; forks with fork point above/at/below MinReorgIndex: at/above must be adopted with pure states, below may be refused with an error and an unchanged view; UpdatesSince/BlocksForHistory needing pruned bodies must error without panic; pruned store reopened from its durable image; a subscriber sitting on the highest pruned best-chain block must reach the tip; PruneBlocks with a heavier fork submitted from another goroutine during the walk (started from a store hook, lock hand-over forced by delays): the missing bodies and the tip must be explained by one of the two sequential orders; distinct = (regime, stream, pruned count, split)")
 	if st, ok := replayStream(replay); ok {
-		runC19History(r, st)
+		if st >= 195000 {
+			runC19PruneRace(r, st)
+		} else {
+			runC19History(r, st)
+		}
 		return
 	}
 	parallel(r.Pick(300, 5000), func(i int) { runC19History(r, uint64(190000+i)) })
+	parallel(r.Pick(48, 600), func(i int) { runC19PruneRace(r, uint64(195000+i)) })
+	r.Floor("prune_race_submission_started_by_the_hook", 20)
 	r.Floor("pruned_node_audits", 500)
 	r.Floor("subscribers_resumed_on_a_pruned_block", 100)
 	r.Floor("prunes:beyond-tip+1", 20)
